@@ -149,6 +149,11 @@ func apply(data []byte, m mut) []byte {
 
 const nFieldVals = 8
 
+// small integer fields (<= 16 bits) additionally get a sweep of boundary
+// values: conditions of the form "count == N exactly" (seed C06-3: an
+// unshared-length byte that must be 8) are not reached by the generic patterns
+var smallFieldVals = []int{0, 1, 2, 3, 4, 5, 6, 7, 8, 9, 10, 11, 12, 13, 14, 15, 16, 17, 31, 32, 33, 63, 64, 65, 127, 128, 129, 254, 255}
+
 func setBit(b []byte, i int, v bool) {
 	if v {
 		b[i>>3] |= 1 << (7 - uint(i&7))
@@ -166,6 +171,14 @@ func applyField(data []byte, m mut) []byte {
 		return data
 	}
 	out := append([]byte(nil), data...)
+	if m.Val >= 100 {
+		// small field := literal value (big endian over the field's bits)
+		v := m.Val - 100
+		for i := 0; i < m.W; i++ {
+			setBit(out, m.Off+i, (v>>(uint(m.W-1-i)))&1 != 0)
+		}
+		return out
+	}
 	switch m.Val % nFieldVals {
 	case 0, 1, 2, 3:
 		n := m.W
@@ -773,7 +786,25 @@ func TestFieldMutants(t *testing.T) {
 				continue
 			}
 			leaves := leafFields(e)
-			all := len(leaves) * nFieldVals
+			type lv struct{ off, w, val int }
+			var lvs []lv
+			for _, lf := range leaves {
+				for v := 0; v < nFieldVals; v++ {
+					if v >= 4 && lf[1] < 8 {
+						continue
+					}
+					lvs = append(lvs, lv{lf[0], lf[1], v})
+				}
+				if lf[1] <= 16 {
+					for _, sv := range smallFieldVals {
+						if lf[1] < 8 && sv >= 1<<uint(lf[1]) {
+							continue
+						}
+						lvs = append(lvs, lv{lf[0], lf[1], 100 + sv})
+					}
+				}
+			}
+			all := len(lvs)
 			stride := 1
 			if all > capPerFile {
 				stride = (all + capPerFile - 1) / capPerFile
@@ -783,11 +814,7 @@ func TestFieldMutants(t *testing.T) {
 				start = int(harness.E.Seed) % stride
 			}
 			for k := start; k < all; k += stride {
-				lf := leaves[k/nFieldVals]
-				m := mut{Kind: "field", Off: lf[0], W: lf[1], Val: k % nFieldVals}
-				if m.Val >= 4 && m.W < 8 {
-					continue
-				}
+				m := mut{Kind: "field", Off: lvs[k].off, W: lvs[k].w, Val: lvs[k].val}
 				if hungField[e.Path+"|"+strconv.Itoa(m.Off)] {
 					harness.ExtraAdd("field_patterns_skipped_after_hang", 1)
 					continue
@@ -803,6 +830,13 @@ func TestFieldMutants(t *testing.T) {
 					format = "probe"
 				}
 				do(t, caseT{Path: e.Path, Format: format, Mut: m})
+				// the same overwrite under forced decoding: checksum and magic
+				// asserts that stop the unforced decode early are skipped
+				// (seed C06-3 needs a count field set to 8 behind a block checksum)
+				if p.forceOK(e.Format) {
+					total++
+					do(t, caseT{Path: e.Path, Format: e.Format, Force: true, Mut: m})
+				}
 			}
 		}
 	}
